@@ -22,7 +22,7 @@ package allocator
 //@   inv cnt: bigval(self.allocatedCount) == card(self.allocated) && card(self.allocated) == card(self.indexToSubscriber)
 
 //@ func NewIPAllocator
-//@   ensures err == nil ==> result != nil && result.nonnil && result.distinct
+//@   ensures err == nil ==> result != nil && fresh(result) && result.nonnil && result.distinct
 //@   ensures err == nil ==> result.fwd && result.rev && result.bits && result.cnt
 //@   ensures err == nil ==> result.total
 //@   ensures err == nil ==> card(result.allocated) == 0 && forall i mathint :: !bit(result.bitmap, i)
@@ -32,6 +32,12 @@ package allocator
 //@   ensures err == nil ==> a.fwd && a.rev && a.bits
 //@   ensures err == nil ==> a.cnt
 //@   ensures err == nil ==> a.total
+
+//@ loop IPAllocator.UnmarshalJSON#1
+//@   invariant alloc != nil && alloc != a && alloc.nonnil && alloc.distinct && alloc.total
+//@   invariant forall s string :: s in alloc.allocated ==> s in visited
+//@   invariant alloc.fwd && alloc.rev && alloc.bits
+//@   invariant alloc.cnt
 
 //@ func (a *IPAllocator) findFreeIndex
 //@   requires a.inv
